@@ -36,6 +36,8 @@ type Program struct {
 	theoryOrder []string
 	globals   map[string]Term   // package-level variable -> constant
 	globalAx  []string          // axioms from literal initialisers (bytes theory)
+	paramValidators map[string]string // Params field -> validator function registered for it in ParamSetPairs
+	paramValidateCalls map[string]string // Params field -> validate* function (Params).Validate applies to it
 	paramKeys map[string]string // package-level key variable -> Params field it is registered for in (*Params).ParamSetPairs (read from the syntax every run)
 	contractsSource string
 	loadSeconds float64
@@ -315,6 +317,8 @@ func (p *Program) posString(pos token.Pos) string {
 // of the keeper read the subspace by key; their contracts ("returns params.<Field>") are checked against this table.
 func (p *Program) scanParamPairs() {
 	p.paramKeys = map[string]string{}
+	p.paramValidators = map[string]string{}
+	p.paramValidateCalls = map[string]string{}
 	for _, pk := range p.pkgs {
 		if pk.PkgPath != modPath+"/types" {
 			continue
@@ -322,6 +326,23 @@ func (p *Program) scanParamPairs() {
 		for _, f := range pk.Syntax {
 			for _, d := range f.Decls {
 				fd, ok := d.(*ast.FuncDecl)
+				if ok && fd.Name.Name == "Validate" && fd.Body != nil && fd.Recv != nil && len(fd.Recv.List) == 1 {
+					if id, isId := fd.Recv.List[0].Type.(*ast.Ident); isId && id.Name == "Params" {
+						// (p Params) Validate: every call validateX(p.Field)
+						ast.Inspect(fd.Body, func(n ast.Node) bool {
+							call, ok := n.(*ast.CallExpr)
+							if !ok || len(call.Args) != 1 {
+								return true
+							}
+							fn, ok := call.Fun.(*ast.Ident)
+							sel, ok2 := call.Args[0].(*ast.SelectorExpr)
+							if ok && ok2 && strings.HasPrefix(fn.Name, "validate") {
+								p.paramValidateCalls[sel.Sel.Name] = fn.Name
+							}
+							return true
+						})
+					}
+				}
 				if !ok || fd.Name.Name != "ParamSetPairs" || fd.Body == nil {
 					continue
 				}
@@ -347,6 +368,9 @@ func (p *Program) scanParamPairs() {
 						return true
 					}
 					p.paramKeys[pk.PkgPath+"."+key.Name] = fs.Sel.Name
+					if v, ok := call.Args[2].(*ast.Ident); ok {
+						p.paramValidators[fs.Sel.Name] = v.Name
+					}
 					return true
 				})
 			}
